@@ -635,7 +635,7 @@ def enclosing_tests(node: ast.AST, stop: Optional[ast.AST] = None, guards: bool 
     out = []
     child = node
     for anc in ancestors(node):
-        if anc is stop:
+        if anc is stop and not guards:
             break
         if guards:
             for fld in ("body", "orelse", "finalbody"):
@@ -651,6 +651,8 @@ def enclosing_tests(node: ast.AST, stop: Optional[ast.AST] = None, guards: bool 
                             elif sib.orelse and always_exits(sib.orelse) and not always_exits(sib.body):
                                 if rejections or not always_raises(sib.orelse):
                                     out.append((sib.test, True))
+        if anc is stop:
+            break  # the guard clauses of `stop`'s own block still count, its enclosing tests do not
         if isinstance(anc, (ast.If, ast.While)):
             if any(child is s for s in anc.body):
                 out.append((anc.test, True))
